@@ -1,6 +1,7 @@
 """Recorder (what a shard observed), shard configuration, hashing helpers."""
 import hashlib
 import json
+import sys
 import os
 import random
 import time
@@ -103,6 +104,10 @@ class Recorder:
         v = self.violations.setdefault(key, {"count": 0, "what": what, "witnesses": []})
         v["count"] += 1
         if len(v["witnesses"]) < self.MAX_WITNESS_PER_KEY:
+            if isinstance(witness, dict) and sys.flags.optimize:
+                witness = dict(witness, python_optimize=sys.flags.optimize)
+                if "summary" in witness:
+                    witness["summary"] += "  [observed under python -O]"
             v["witnesses"].append(witness)
 
     def dump(self, path, cfg):
